@@ -222,6 +222,10 @@ def judge(case) -> Verdict:
     kw = dict(platform=platform)
     if group_by:
         kw["group_by"] = group_by
+        # a heading becomes the name of its block, and names are limited to 100 characters (documented ValueError)
+        if any(it["t"] == "rem" and it["text"].startswith(group_by) and len(it["text"]) > 100
+               for sec in case["sections"] if sec["s"] in ("acl", "acl-cont") for it in sec["acl"]["items"]):
+            raise Invalid()
     opts = case.get("opts") or {}
     for key in ("port_nr", "protocol_nr", "indent", "version", "max_ncwb"):
         if key in opts:
